@@ -252,7 +252,7 @@ fn main() {
                     samples.push(J::obj().set("run", i).set("seed", run_seed).set("plan", plan.clone()).set("ops", J::Arr(r.ops.clone())));
                 }
                 if let Some(f) = emit.as_mut() {
-                    let rec = J::obj().set("run", i).set("seed", run_seed).set("profile", profile.as_str()).set("plan", plan.clone()).set("ops", J::Arr(r.ops.clone())).set("digest", r.digest).set("violated", !viol.is_empty());
+                    let rec = J::obj().set("run", i).set("seed", run_seed).set("profile", profile.as_str()).set("plan", plan.clone()).set("ops", J::Arr(r.ops.clone())).set("digest", r.digest).set("vkinds", J::Arr(viol.iter().take(1).map(|v| J::from(v.kind.as_str())).collect())).set("violated", !viol.is_empty());
                     let _ = writeln!(f, "{}", rec.dump());
                 }
                 if !viol.is_empty() {
